@@ -26,6 +26,7 @@ Sim::Sim(const Plan& p, bool keep_trace)
 
     resolver.policy = [this](const std::string& host, const std::string& port, int nth) {
         sim::ResolveDecision d;
+        { uint64_t ob = 0; auto e = broker.unfinished_attempt(-1, &ob); if (!e.empty()) broker.overlaps.push_back({ob, w.seq, true, "async_resolve #" + std::to_string(nth) + " started while " + e}); }
         auto r = sim::Rng::keyed(w.seed, "resolve", {(uint64_t)nth});
         int h = host_of(host);
         d.delay = r.range(0, plan.knobs.resolve_delay_max);
@@ -463,6 +464,7 @@ void Sim::execute() {
 
     // phase 3: drain the receive channel (count what reached the application)
     if (client && running && !livelock && !budget_exhausted) {
+        running_at_drain = true;
         for (int i = 0; i < 100000; ++i) {
             Step s; s.kind = SK::Receive; s.id = -2; s.a = 1;
             size_t before = ops.size();
